@@ -10,6 +10,7 @@ import (
 	"strings"
 
 	"github.com/casbin/casbin/v2"
+	fileadapter "github.com/casbin/casbin/v2/persist/file-adapter"
 	"github.com/casbin/casbin/v2/util"
 )
 
@@ -271,7 +272,7 @@ func c17Examples(c *Ctx) {
 		sort.Strings(gtypes)
 		for t := 0; t < nTrans; t++ {
 			c.Evals++
-			kind := rng.Intn(7)
+			kind := rng.Intn(8)
 			switch kind {
 			case 0: // reload the same rules from a file listing them in another order
 				if !nonPriority {
@@ -358,7 +359,14 @@ func c17Examples(c *Ctx) {
 				mid := c17Decisions(base, reqs)
 				empty := len(m["p"]["p"].Policy) == 1 && sec == "p" && pt == "p" // finding D24: the policy was empty before
 				for i := range before {
-					if before[i] < 0 || mid[i] < 0 || empty {
+					if before[i] < 0 || mid[i] < 0 {
+						continue
+					}
+					if denyOverride && sec == "p" && before[i] == 0 && mid[i] == 1 {
+						c.Direct("adding a rule granted a request under deny-override", fmt.Sprintf("%s added %s %v request=%v", name, pt, r, reqs[i]))
+						break
+					}
+					if empty {
 						continue
 					}
 					if allowOverride && (sec == "p" || positive) && before[i] == 1 && mid[i] == 0 {
@@ -461,6 +469,33 @@ func c17Examples(c *Ctx) {
 					base = build(filepath.Join("/repo/examples", pr.policy))
 				}
 				c.Count("t=relink-subject", 1)
+			case 7: // deny-override from an empty policy: the first rule, whatever it is, never grants
+				if !denyOverride {
+					continue
+				}
+				e2, err := casbin.NewEnforcer(mpath)
+				if err != nil {
+					continue
+				}
+				if pr.setup != nil {
+					pr.setup(e2)
+				}
+				for _, l := range lines {
+					if l.ptype[:1] == "g" {
+						_, _ = e2.AddNamedGroupingPolicy(l.ptype, l.rule)
+					}
+				}
+				d0 := c17Decisions(e2, reqs)
+				r := randRule("p")
+				_, _ = e2.AddNamedPolicy("p", r)
+				d1 := c17Decisions(e2, reqs)
+				for i := range d0 {
+					if d0[i] == 0 && d1[i] == 1 {
+						c.Direct("adding a rule granted a request under deny-override", fmt.Sprintf("%s: empty policy, added p %v request=%v", name, r, reqs[i]))
+						break
+					}
+				}
+				c.Count("t=first-rule-deny-override", 1)
 			case 5: // the same rules given in another order through the API to a fresh enforcer
 				if !nonPriority {
 					continue
@@ -636,7 +671,13 @@ func c17Generated(c *Ctx) {
 			cur := look()
 			d24 := nBefore == 0 || nAfter == 0
 			for k := range reqs {
-				if prev[k] == "err" || cur[k] == "err" || d24 {
+				if prev[k] == "err" || cur[k] == "err" {
+					continue
+				}
+				if denyOv && add && sec == "p" && prev[k] == "false" && cur[k] == "true" {
+					c.Direct("adding a rule granted a request under deny-override", fmt.Sprintf("matcher=%s %s %s %v request=%v before=%s after=%s", mx.Text("r", "p", ms.R["r"], ms.P["p"]), kind, sec, rule, reqText(reqs[k]), prev[k], cur[k]))
+				}
+				if d24 {
 					continue
 				}
 				what := fmt.Sprintf("matcher=%s effect=%s %s %s %v request=%v before=%s after=%s", mx.Text("r", "p", ms.R["r"], ms.P["p"]), eff, kind, sec, rule, reqs[k], prev[k], cur[k])
@@ -666,8 +707,82 @@ func proto17Bool(b bool) string {
 	return "false"
 }
 
+// a domain matching function with a user who has several roles in a pattern domain: the managers of
+// concrete domains are derived from the pattern domains, in whatever order the rules arrive
+func c17DomainPatternOrders(c *Ctx) {
+	mpath := "/repo/examples/rbac_with_domain_pattern_model.conf"
+	rules := [][]string{
+		{"p", "reader", "domain1", "data1", "read"}, {"p", "writer", "domain1", "data1", "write"}, {"p", "reader", "domain2", "data2", "read"},
+		{"g", "alice", "reader", "*"}, {"g", "alice", "writer", "*"}, {"g", "bob", "reader", "domain1"}, {"g", "bob", "writer", "domain2"},
+	}
+	var reqs [][]interface{}
+	for _, u := range []string{"alice", "bob"} {
+		for _, d := range []string{"domain1", "domain2", "domain3"} {
+			for _, oa := range [][2]string{{"data1", "read"}, {"data1", "write"}, {"data2", "read"}} {
+				reqs = append(reqs, []interface{}{u, d, oa[0], oa[1]})
+			}
+		}
+	}
+	n := 40
+	if c.Thorough() {
+		n = 2000
+	}
+	var ref []int8
+	var refOrder []int
+	for i := 0; i < n; i++ {
+		perm := c.Rng.Perm(len(rules))
+		if i == 0 {
+			for j := range perm {
+				perm[j] = j
+			}
+		}
+		e, err := casbin.NewEnforcer(mpath)
+		if err != nil {
+			return
+		}
+		e.AddNamedDomainMatchingFunc("g", "keyMatch2", util.KeyMatch2)
+		viaAPI := i%2 == 1
+		if viaAPI {
+			for _, j := range perm {
+				r := rules[j]
+				if r[0] == "p" {
+					_, _ = e.AddPolicy(r[1:])
+				} else {
+					_, _ = e.AddGroupingPolicy(r[1:])
+				}
+			}
+		} else {
+			var sb strings.Builder
+			for _, j := range perm {
+				sb.WriteString(strings.Join(rules[j], ", ") + "\n")
+			}
+			path := scratchFile() + ".c17dom"
+			_ = os.WriteFile(path, []byte(sb.String()), 0o644)
+			e.SetAdapter(fileadapter.NewAdapter(path))
+			if err := e.LoadPolicy(); err != nil {
+				continue
+			}
+		}
+		d := c17Decisions(e, reqs)
+		c.Evals++
+		c.Count("domain_pattern_orders", 1)
+		if ref == nil {
+			ref, refOrder = d, perm
+			continue
+		}
+		for k := range d {
+			if d[k] >= 0 && ref[k] >= 0 && d[k] != ref[k] {
+				c.Direct("with a domain matching function the decision depends on the order in which the same rules were loaded or added", fmt.Sprintf("request=%v order %v (api=%v) decides %d, order %v decides %d", reqs[k], perm, viaAPI, d[k], refOrder, ref[k]))
+				return
+			}
+		}
+		c.Nontrivial(fmt.Sprintf("dompat %v %v", perm, viaAPI))
+	}
+}
+
 func runC17(c *Ctx) {
-	c.Rule = "metamorphic relations on the real enforcer for 31 shipped examples/ model+policy pairs (regex/glob/ip/keyMatch mixtures, pattern role managers, eval, ABAC; set up as their tests do) x seeded random transformations (reload from a file listing the same rules in another order, the same rules added in another order through the API, move a rule to the end, add a listed rule, add and remove a fresh rule or link, remove and re-add a listed rule or link, remove all role links of a subject and add them back) x requests drawn from the values occurring in the policy: every error-free decision must be unchanged (non-priority effects), no allowed request denied after an addition / no denied request granted after a removal (allow-override, matcher without negation), no grant after an addition under deny-override; plus generated models with random positive matchers (and a negated role test for contrast) over g, keyMatch, comparisons: every call and decision compared with the Lean model, the same relations checked along random add/remove runs; non-trivial = a transformation that permuted rules or changed some decision; distinct = (pair, transformation)"
+	c.Rule = "metamorphic relations on the real enforcer for 31 shipped examples/ model+policy pairs (regex/glob/ip/keyMatch mixtures, pattern role managers, eval, ABAC; set up as their tests do) x seeded random transformations (reload from a file listing the same rules in another order, the same rules added in another order through the API, move a rule to the end, add a listed rule, add and remove a fresh rule or link, remove and re-add a listed rule or link, remove all role links of a subject and add them back) x requests drawn from the values occurring in the policy: every error-free decision must be unchanged (non-priority effects), no allowed request denied after an addition / no denied request granted after a removal (allow-override, matcher without negation), no grant after an addition under deny-override; a domain-pattern model whose user has several roles in a pattern domain, the same 7 rules loaded / added in seeded random orders; plus generated models with random positive matchers (and a negated role test for contrast) over g, keyMatch, comparisons: every call and decision compared with the Lean model, the same relations checked along random add/remove runs; non-trivial = a transformation that permuted rules or changed some decision; distinct = (pair, transformation)"
 	c17Examples(c)
+	c17DomainPatternOrders(c)
 	c17Generated(c)
 }
